@@ -14,6 +14,7 @@ def check(chk, thorough=False):
     chk.run('C08.a', 'R-ORDER', 'the CRC update precedes the encode which precedes the one transmission site, with nothing in between that can change the bundle', lambda ob: c08a(tree, ob), floor=3)
     chk.run('C08.b', 'R-ORDER', 'on receive the CRC gate (check, return on failure) dominates the seen-set add, every recorded action, the chain, reporting and forwarding', lambda ob: c08b(tree, ob), floor=6)
     chk.run('C08.c', 'sibling', 'update_crc and check_crc compute the CRC the same way (zeroed field of the right width, whole block, same algorithm table); both all-block loops cover primary and every canonical block', lambda ob: c08c(tree, ob), floor=8)
+    chk.run('C08.e', 'R-SCHEMA', 'the decode is faithful to the CBOR type of every item (integer, byte string and endpoint ID fields refuse items of another type), so the re-encoding the CRC check signs is the block that arrived', lambda ob: c08e(tree, ob), floor=27)
     chk.run('C08.d', 'R-SCHEMA', 'CRC types 1/2 are CRC-16/X.25 big-endian 2 octets and CRC-32C big-endian 4 octets; the CRC field exists iff the type is non-zero', lambda ob: c08d(tree, ob), floor=6)
 
 
@@ -312,3 +313,71 @@ def c08d(tree, ob):
         ob.violate(BLOCKS, fc.qual, 'crc_type == 0 -> valid = crc_value is None', 'a block with CRC type 0 that carries a CRC value is accepted', fc.func)
     else:
         ob.site(BLOCKS, v0[0], 'type 0 -> valid iff no CRC value')
+
+
+
+def c08e(tree, ob):
+    # check_crc() signs the re-encoding of the decoded block, so the decode has to be faithful to the CBOR type of every item:
+    # a field that converts with int() / bytes() / indexing also takes a bool, a float, an array or a byte string, decodes it to
+    # the value that was signed and re-encodes it as the signed item -- a burst that turns 0x01 into 0xf5, an array head into a
+    # byte string head or 0x4n into 0x6n then passes the check.  Decided by folding the guards of the decode path over one
+    # representative item per foreign CBOR type: each must be refused (raise, or None) before it is converted.
+    from .. import absint
+    rel = 'scapy_cbor/fields.py'
+    FOREIGN = {
+        'UintField': [True, False, 1.5, '5', b'\x01', [1], {1: 2}],
+        'BstrField': [5, True, 1.5, 'ab', [1, 2], {1: 2}],
+    }
+
+    def refused(out):
+        return out.kind == 'raise' or (out.kind == 'return' and out.value is None)
+
+    for (cname, samples) in sorted(FOREIGN.items()):
+        cls = tree.klass(rel, cname)
+        meths = {m.name: m for m in cls.body if isinstance(m, ast.FunctionDef)}
+        ob.require('m2i' in meths, '{}.m2i'.format(cname))
+        for item in samples:
+            ok = False
+            where = meths.get('getfield') or meths['m2i']
+            if 'getfield' in meths:
+                g = meths['getfield']
+                ob.require(len(g.args.args) == 3, '{}.getfield signature'.format(cname))
+                ok = refused(absint.run(g.body, {g.args.args[2].arg: [item]}, {}))
+            if not ok:
+                m = meths['m2i']
+                ob.require(len(m.args.args) == 3, '{}.m2i signature'.format(cname))
+                ok = refused(absint.run(m.body, {m.args.args[2].arg: item}, {}))
+            if ok:
+                ob.site(rel, where, '{}: a {} item is refused'.format(cname, type(item).__name__))
+            else:
+                ob.violate(rel, cname + '.' + where.name, 'item of type {}'.format(type(item).__name__),
+                           '{} converts a {} item ({!r}) instead of refusing it: the decoded value re-encodes as the item that was signed, so a burst '
+                           'that changes the CBOR type of the item passes the CRC check'.format(cname, type(item).__name__, item), where)
+    # a wrapped array hands its item to the inner field, which iterates it: only an array may get there
+    aw = tree.klass(rel, 'ArrayWrapField')
+    g = one([m for m in aw.body if isinstance(m, ast.FunctionDef) and m.name == 'getfield'], 'ArrayWrapField.getfield', ob)
+    fg = FuncView(tree, rel, 'ArrayWrapField.getfield')
+    inner = [c for c in calls_in(g) if pm('self.fld.getfield($p, $l)', c) is not None]
+    ic = one(inner, 'inner getfield of ArrayWrapField', ob)
+    lst = src(ic.args[1])
+    if any(fg.has(ic, 'isinstance({}, {})'.format(lst, t), True) for t in ('(list, tuple)', 'list', '(tuple, list)')):
+        ob.site(rel, ic, 'ArrayWrapField: only an array item is unwrapped')
+    else:
+        ob.violate(rel, 'ArrayWrapField.getfield', src(ic), 'the wrapped item is iterated whatever its type: a byte string in place of an array of integers (a target list) decodes to the same '
+                   'values and re-encodes as the signed array', ic)
+    # the endpoint ID is indexed out of whatever arrived
+    frel = 'bp/encoding/fields.py'
+    cls = tree.klass(frel, 'EidField')
+    m = one([x for x in cls.body if isinstance(x, ast.FunctionDef) and x.name == 'm2i'], 'EidField.m2i', ob)
+    en = enum_members(tree, frel, tree.klass(frel, 'EidField.TypeCode'))
+    ob.require(en.get('dtn') == 1 and en.get('ipn') == 2, 'EID scheme codes')
+    consts = {'EidField.TypeCode.dtn': 1, 'EidField.TypeCode.ipn': 2, 'self.TypeCode.dtn': 1, 'self.TypeCode.ipn': 2}
+    arg = m.args.args[2].arg
+    eid_foreign = [b'\x01\x00', [True, '//a/'], [1.0, '//a/'], [1, True], [1, False], [1, 1.5], [1, b'x'], [1, [1]], [2, b'\x01\x02'], [2, [True, 2]], [2, [1.0, 2]], [2, '12'], [2.0, [1, 2]]]
+    for item in eid_foreign:
+        out = absint.run(m.body, {arg: item}, consts)
+        if refused(out):
+            ob.site(frel, m, 'EidField: {!r} is refused'.format(item))
+        else:
+            ob.violate(frel, 'EidField.m2i', 'item {!r}'.format(item), 'an endpoint ID is decoded from {!r}, which is not the encoding of an endpoint ID but indexes / compares like one: '
+                       'it re-encodes as the signed EID, so a burst that changes an item type inside an EID passes the CRC check'.format(item), out.node or m)
